@@ -138,3 +138,34 @@ Definition api_model_accepts (s : schema) (b : bytes) : option bytes :=
   | Ok (v, []) => if wfv s v then Some (enc s v) else None
   | _ => None
   end.
+
+(* ---- stream (iii): decode, mutate through a setter, encode ----
+   [field_bytes s v k]: the bytes under key [k] of the map-struct at the root of [v] (through choices, names and tags),
+   None when the field is absent or not written, or when the root is not in map form (e.g. a legacy array output).
+   The judge compares them with the stand-alone serialisation of what the setter was given. *)
+Fixpoint field_kl (fs : klist) (l : list (option val)) (k : N) : option bytes :=
+  match fs, l with
+  | KCons k' p s r, o :: t =>
+      if k' =? k then match o with Some v => if present p o then Some (enc s v) else None | None => None end
+      else field_kl r t k
+  | _, _ => None
+  end.
+Fixpoint field_bytes (s : schema) (v : val) (k : N) {struct s} : option bytes :=
+  match s, v with
+  | SMap fs, VStruct l => field_kl fs l k
+  | SNamed _ s', v' => field_bytes s' v' k
+  | STag _ s', v' => field_bytes s' v' k
+  | SChoice alts, VAlt i v' => field_cl alts i v' k
+  | _, _ => None
+  end
+with field_cl (alts : clist) (i : nat) (v : val) (k : N) {struct alts} : option bytes :=
+  match alts with
+  | CNil => None
+  | CCons _ s r => match i with O => field_bytes s v k | S i' => field_cl r i' v k end
+  end.
+(* the field the model finds in the complete decoding of [b] *)
+Definition api_model_field (s : schema) (b : bytes) (k : N) : option bytes :=
+  match dec s b with
+  | Ok (v, []) => field_bytes s v k
+  | _ => None
+  end.
